@@ -155,13 +155,6 @@ Proof.
   intros q Hq. rewrite Hz' by exact Hq. unfold rget. symmetry. apply nth_repeat_inf.
 Qed.
 
-Lemma aget_amake junk n k : (k < n)%nat -> aget (amake junk (Z.of_nat n)) (Z.of_nat k) = junk (Z.of_nat k).
-Proof.
-  intros Hk. unfold aget, amake. destruct (Z.ltb_spec (Z.of_nat k) 0); [lia|]. rewrite Nat2Z.id.
-  change 0 with (Z.of_nat 0). change (Z.of_nat n) with (Z.of_nat (0 + n)). rewrite zrange_seq, map_map.
-  rewrite nth_map_seq by exact Hk. reflexivity.
-Qed.
-
 (* dtw = array.array('d', [inf] * (2 * length));  for i in range(min(psi_2b + 1, length)): dtw[i] = 0 *)
 Lemma py_init_spec :
   exists dtw, fold_left (py_distance_loop1 (2 * zL)) (zrange 0 (Z.min (Z.of_nat (psi_2b u) + 1) zL))
